@@ -25,6 +25,8 @@ SCIPY_RTOL = 1e-9          # scipy gridders: 1e-9 * max|d| (measured worst 2e-13
 CHAIN_ROUND = 64.0         # chains: + 64 eps max(|d|, |step predictions|) for the residual bookkeeping
 HULL_BOUNDARY = "either_way"     # scipy gridders at data points lying on the convex-hull boundary (see ASSUMPTIONS and finish note)
 EPS = ref.EPS
+DATA_MAGNITUDES = (1e-15, 1e-12, 1e-9, 1e-6, 1e-3, 1.0, 1e3, 1e6, 1e9, 1e12, 1e15)   # 'all finite data values': absolute-tolerance shortcuts show
+SIZES = (127, 128, 129, 255, 256, 257, 385, 513)   # at and around multiples of 64/128/256: tails of blocked / vectorised kernels
 
 RULE = (
     "cases = seeded clouds of 1..400 pairwise-distinct points (uniform, jittered grid, clusters, anisotropic box, "
@@ -33,7 +35,8 @@ RULE = (
     "in [-1,1] and mindist>0, KNeighbors() / k=1 with mean/median/max, Linear/Cubic with rescale on/off, ScipyGridder "
     "linear/nearest/cubic, Chains [Trend(0..2), exact], nested Chains, Vectors of exact gridders and of Chains, vector Chains "
     "ending in VectorSpline2D) and predicted at the fitted coordinates (also after the caller overwrote its own arrays); "
-    "Trend(0..4) fitted to polynomials of total degree <= N and predicted inside twice the data bounding box. "
+    "all data times 1e-15..1e15 half of the time (magnitude classes); stream sizes: VectorSpline2D, Spline, KNeighbors and Linear on well separated "
+    "jittered grids of 127, 128, 129, 255, 256, 257, 385, 513 points; Trend(0..4) fitted to polynomials of total degree <= N and predicted inside twice the data bounding box. "
     "Non-trivial = at least 3 points, non-constant data and an informative tolerance (< 1e-3 of the data scale); distinct = "
     "hash of estimator kind, configuration, coordinates and data. Spline-family cases are binned by decade of the reference "
     "condition number; bins 1e6..1e10 are the regression test of finding F1."
@@ -51,8 +54,8 @@ ASSUMPTIONS = [
     "the fitted points are pairwise distinct (cases with duplicates are skipped, the statement quantifies over distinct points)",
 ]
 FLOORS = {
-    "quick": {'eval:spline_exact': 330, 'eval:vspline_exact': 70, 'eval:knn_exact': 235, 'eval:scipy_exact': 430, 'eval:chain_exact': 170, 'eval:vector_exact': 36, 'eval:trend_reproduction': 550, 'informative_kappa_ge_1e6:spline': 75, 'informative_kappa_ge_1e6:trend': 115, 'distinct_nontrivial': 1350, 'layout:coordinates:2d_fortran': 150, 'layout:coordinates:2d_transposed_view': 140, 'layout:coordinates:2d_strided': 150, 'layout:coordinates:1d_series': 250, 'layout:data:2d_fortran': 70, 'layout:data:2d_transposed_view': 80, 'layout:data:2d_strided': 80, 'layout:data:2d_negative_stride': 80, 'layout:data:1d_series': 140, 'layout:data_laid_out_differently_from_coordinates': 800},
-    "thorough": {'eval:spline_exact': 6600, 'eval:vspline_exact': 1400, 'eval:knn_exact': 4700, 'eval:scipy_exact': 8600, 'eval:chain_exact': 3400, 'eval:vector_exact': 720, 'eval:trend_reproduction': 11000, 'informative_kappa_ge_1e6:spline': 1500, 'informative_kappa_ge_1e6:trend': 2300, 'distinct_nontrivial': 27000, 'layout:coordinates:2d_fortran': 3000, 'layout:coordinates:2d_transposed_view': 2800, 'layout:coordinates:2d_strided': 3000, 'layout:coordinates:1d_series': 5000, 'layout:data:2d_fortran': 1400, 'layout:data:2d_transposed_view': 1600, 'layout:data:2d_strided': 1600, 'layout:data:2d_negative_stride': 1600, 'layout:data:1d_series': 2800, 'layout:data_laid_out_differently_from_coordinates': 16000},
+    "quick": {'eval:spline_exact': 330, 'eval:vspline_exact': 70, 'eval:knn_exact': 235, 'eval:scipy_exact': 430, 'eval:chain_exact': 170, 'eval:vector_exact': 36, 'eval:trend_reproduction': 550, 'informative_kappa_ge_1e6:spline': 75, 'informative_kappa_ge_1e6:trend': 115, 'distinct_nontrivial': 1350, 'layout:coordinates:2d_fortran': 150, 'layout:coordinates:2d_transposed_view': 140, 'layout:coordinates:2d_strided': 150, 'layout:coordinates:1d_series': 250, 'layout:data:2d_fortran': 70, 'layout:data:2d_transposed_view': 80, 'layout:data:2d_strided': 80, 'layout:data:2d_negative_stride': 80, 'layout:data:1d_series': 140, 'layout:data_laid_out_differently_from_coordinates': 800, 'data_magnitude:1e+00': 683, 'data_magnitude:1e+03': 64, 'data_magnitude:1e+06': 56, 'data_magnitude:1e+09': 55, 'data_magnitude:1e+12': 48, 'data_magnitude:1e+15': 63, 'data_magnitude:1e-03': 52, 'data_magnitude:1e-06': 48, 'data_magnitude:1e-09': 55, 'data_magnitude:1e-12': 56, 'data_magnitude:1e-15': 48, 'size_class:knn:127': 1, 'size_class:knn:128': 1, 'size_class:knn:129': 1, 'size_class:knn:255': 1, 'size_class:knn:256': 1, 'size_class:knn:257': 1, 'size_class:knn:385': 1, 'size_class:knn:513': 1, 'size_class:linear:127': 1, 'size_class:linear:128': 1, 'size_class:linear:129': 1, 'size_class:linear:255': 1, 'size_class:linear:256': 1, 'size_class:linear:257': 1, 'size_class:linear:385': 1, 'size_class:linear:513': 1, 'size_class:spline:127': 1, 'size_class:spline:128': 1, 'size_class:spline:129': 1, 'size_class:spline:255': 1, 'size_class:spline:256': 1, 'size_class:spline:257': 1, 'size_class:spline:385': 1, 'size_class:spline:513': 1, 'size_class:vspline:127': 1, 'size_class:vspline:128': 1, 'size_class:vspline:129': 1, 'size_class:vspline:255': 1, 'size_class:vspline:256': 1, 'size_class:vspline:257': 1, 'size_class:vspline:385': 1, 'size_class:vspline:513': 1},
+    "thorough": {'eval:spline_exact': 6600, 'eval:vspline_exact': 1400, 'eval:knn_exact': 4700, 'eval:scipy_exact': 8600, 'eval:chain_exact': 3400, 'eval:vector_exact': 720, 'eval:trend_reproduction': 11000, 'informative_kappa_ge_1e6:spline': 1500, 'informative_kappa_ge_1e6:trend': 2300, 'distinct_nontrivial': 27000, 'layout:coordinates:2d_fortran': 3000, 'layout:coordinates:2d_transposed_view': 2800, 'layout:coordinates:2d_strided': 3000, 'layout:coordinates:1d_series': 5000, 'layout:data:2d_fortran': 1400, 'layout:data:2d_transposed_view': 1600, 'layout:data:2d_strided': 1600, 'layout:data:2d_negative_stride': 1600, 'layout:data:1d_series': 2800, 'layout:data_laid_out_differently_from_coordinates': 16000, 'data_magnitude:1e+00': 12294, 'data_magnitude:1e+03': 1152, 'data_magnitude:1e+06': 1008, 'data_magnitude:1e+09': 990, 'data_magnitude:1e+12': 864, 'data_magnitude:1e+15': 1134, 'data_magnitude:1e-03': 936, 'data_magnitude:1e-06': 864, 'data_magnitude:1e-09': 990, 'data_magnitude:1e-12': 1008, 'data_magnitude:1e-15': 864, 'size_class:knn:127': 8, 'size_class:knn:128': 8, 'size_class:knn:129': 8, 'size_class:knn:255': 8, 'size_class:knn:256': 8, 'size_class:knn:257': 8, 'size_class:knn:385': 8, 'size_class:knn:513': 8, 'size_class:linear:127': 8, 'size_class:linear:128': 8, 'size_class:linear:129': 8, 'size_class:linear:255': 8, 'size_class:linear:256': 8, 'size_class:linear:257': 8, 'size_class:linear:385': 8, 'size_class:linear:513': 8, 'size_class:spline:127': 8, 'size_class:spline:128': 8, 'size_class:spline:129': 8, 'size_class:spline:255': 8, 'size_class:spline:256': 8, 'size_class:spline:257': 8, 'size_class:spline:385': 8, 'size_class:spline:513': 8, 'size_class:vspline:127': 8, 'size_class:vspline:128': 8, 'size_class:vspline:129': 8, 'size_class:vspline:255': 8, 'size_class:vspline:256': 8, 'size_class:vspline:257': 8, 'size_class:vspline:385': 8, 'size_class:vspline:513': 8},
 }
 JOBS = {"quick": 1, "thorough": 16}
 CASE_TIMEOUT_S = 300
@@ -60,8 +63,8 @@ CASE_TIMEOUT_S = 300
 
 def plan(tier):
     if tier == "quick":
-        return collections.OrderedDict(spline=400, vspline=130, knn=150, scipy=200, chain=220, vector=90, trend_poly=300)
-    return collections.OrderedDict(spline=8000, vspline=2600, knn=3000, scipy=4000, chain=4400, vector=1800, trend_poly=6000)
+        return collections.OrderedDict(spline=400, vspline=130, knn=150, scipy=200, chain=220, vector=90, trend_poly=300, sizes=64)
+    return collections.OrderedDict(spline=8000, vspline=2600, knn=3000, scipy=4000, chain=4400, vector=1800, trend_poly=6000, sizes=640)
 
 
 # ----------------------------------------------------------------------
@@ -797,7 +800,7 @@ def run_case(run, tap, stream, index, rng):
         if index % 10 == 0:
             n = int(rng.integers(1, 4))
         east, north, kind = _cloud(rng, n)
-        data = gen.smooth_field(rng, east, north)
+        data = _field(run, rng, east, north)
         mindist = None
         if rng.random() < 0.35:
             spacing = np.hypot(np.ptp(east), np.ptp(north)) / np.sqrt(n)
@@ -817,7 +820,7 @@ def run_case(run, tap, stream, index, rng):
     elif stream == "vspline":
         n = _composite_size(rng, 2, 200, big_lo=60)
         east, north, kind = _cloud(rng, n)
-        d_east = gen.smooth_field(rng, east, north)
+        d_east = _field(run, rng, east, north)
         d_north = gen.smooth_field(rng, east, north, amplitude=float(np.abs(d_east).max()) * gen.log_uniform(rng, 0.1, 10))
         spacing = np.hypot(np.ptp(east), np.ptp(north)) / np.sqrt(n)
         mindist = float(spacing * gen.log_uniform(rng, 1e-2, 2.0))
@@ -838,7 +841,7 @@ def run_case(run, tap, stream, index, rng):
         for _ in range(3):
             n = _composite_size(rng, 1, 400)
             east, north, kind = _cloud(rng, n)
-            data = gen.smooth_field(rng, east, north) if rng.random() < 0.8 else rng.integers(-5, 5, n).astype("float64")
+            data = _field(run, rng, east, north) if rng.random() < 0.8 else rng.integers(-5, 5, n).astype("float64")
             layout, (e, nn, d) = _shape(rng, (east, north, data))
             choice = int(rng.integers(0, 4))
             if choice == 0:
@@ -853,7 +856,7 @@ def run_case(run, tap, stream, index, rng):
         for _ in range(4):
             n = _composite_size(rng, 3, 400)
             east, north, kind = _cloud(rng, n)
-            data = gen.smooth_field(rng, east, north)
+            data = _field(run, rng, east, north)
             layout, (e, nn, d) = _shape(rng, (east, north, data))
             choice = int(rng.integers(0, 7))
             with warnings.catch_warnings():
@@ -877,7 +880,7 @@ def run_case(run, tap, stream, index, rng):
     elif stream == "chain":
         n = _composite_size(rng, 4, 300, big_share=0.25)
         east, north, kind = _cloud(rng, n, collinear_ok=False)
-        data = gen.smooth_field(rng, east, north)
+        data = _field(run, rng, east, north)
         if rng.random() < 0.5:  # a strong regional trend under the signal
             x, y = (east - east.mean()) / (np.ptp(east) or 1), (north - north.mean()) / (np.ptp(north) or 1)
             data = data + float(np.abs(data).max()) * gen.log_uniform(rng, 1, 1e3) * (rng.normal() + rng.normal() * x + rng.normal() * y + rng.normal() * x * y)
@@ -904,7 +907,7 @@ def run_case(run, tap, stream, index, rng):
         n = _composite_size(rng, 4, 200, big_share=0.2, big_lo=80)
         east, north, kind = _cloud(rng, n, collinear_ok=False)
         ncomp = 2 if index % 3 else 3
-        comps = tuple(gen.smooth_field(rng, east, north) for _ in range(ncomp))
+        comps = tuple(_field(run, rng, east, north) for _ in range(ncomp))
         layout, shaped = _shape(rng, (east, north) + comps)
         e, nn, data = shaped[0], shaped[1], tuple(shaped[2:])
         with warnings.catch_warnings():
@@ -942,7 +945,9 @@ def run_case(run, tap, stream, index, rng):
             east, north, kind = _cloud(rng, n)
             vp = ref.trend_jacobian(east, north, deg_p)
             mags = np.max(np.abs(vp), axis=0)
-            coefs = gen.log_uniform(rng, 1e-3, 1e6) * rng.normal(size=vp.shape[1]) / np.where(mags > 0, mags, 1.0)
+            factor = float(rng.choice(DATA_MAGNITUDES)) if rng.random() < 0.5 else 1.0
+            run.count("data_magnitude:%.0e" % factor)
+            coefs = factor * gen.log_uniform(rng, 1e-3, 1e6) * rng.normal(size=vp.shape[1]) / np.where(mags > 0, mags, 1.0)
             if deg_p and rng.random() < 0.2:
                 coefs[: vp.shape[1] - deg_p - 1] = 0.0  # a homogeneous polynomial of the top degree
             data = vp @ coefs
@@ -964,8 +969,49 @@ def run_case(run, tap, stream, index, rng):
         run.sample("trend_poly", {"degree": degree, "polynomial_degree": deg_p, "coefficients": coefs, "n": n, "easting": east, "northing": north,
                                   "data": data, "query_easting": qe, "query_northing": qn, "prediction": np.asarray(pred),
                                   "kappa_V": (_lookup(est).info or {}).get("kappa")})
+    elif stream == "sizes":
+        # point counts at and around multiples of 64/128/256 on well separated jittered grids (kappa stays moderate: informative, exact)
+        kind_of = ["vspline", "spline", "knn", "linear"][index % 4]
+        n = SIZES[(index // 4) % len(SIZES)]
+        east, north = gen.cloud(rng, n, kind="jitter", offset_factor=float(rng.choice([0.0, 1.0, 30.0])))
+        spacing = np.hypot(np.ptp(east), np.ptp(north)) / np.sqrt(n)
+        with warnings.catch_warnings():
+            warnings.simplefilter("ignore")
+            if kind_of == "vspline":
+                d_east = _field(run, rng, east, north)
+                data = (d_east, _field(run, rng, east, north, amplitude=float(np.abs(d_east).max()) * gen.log_uniform(rng, 0.3, 3)))
+                est = verde.VectorSpline2D(poisson=float(rng.uniform(-1, 1)), mindist=float(spacing * gen.log_uniform(rng, 0.3, 1.5)))
+            else:
+                data = _field(run, rng, east, north)
+                if kind_of == "spline":
+                    est = verde.Spline() if rng.random() < 0.6 else verde.Spline(mindist=float(spacing * gen.log_uniform(rng, 1e-2, 0.3)))
+                elif kind_of == "knn":
+                    est = verde.KNeighbors() if rng.random() < 0.5 else verde.KNeighbors(k=1, reduction=np.median)
+                    if est.k == 1 and rng.random() < 0.5:
+                        _S.expect[id(est)] = (weakref.ref(est), "KNeighbors() - the documented default is k=1")
+                else:
+                    est = verde.Linear(rescale=bool(rng.random() < 0.5))
+        arrays = (east, north) + (data if isinstance(data, tuple) else (data,))
+        layout, shaped = _shape(rng, arrays)
+        shaped_data = tuple(shaped[2:]) if isinstance(data, tuple) else shaped[2]
+        pred = _fit_predict(est, (shaped[0], shaped[1]), shaped_data, rng, run, overwrite=("coordinates",) if kind_of != "linear" else ())
+        _count_layouts(run, layout)
+        rec = _lookup(est)
+        informative = rec is not None and (rec.kind not in ("spline", "vspline") or (rec.info is not None and not rec.info.get("skip")
+                                                                                       and rec.info.get("rel_tol", 1.0) < INFORMATIVE))
+        run.count("size_class%s:%s:%d" % ("" if informative else "_uninformative", kind_of, n))
+        run.sample("sizes", {"estimator": _describe(est), "n": n, "layout": list(layout.classes), "kappa": None if rec is None or rec.info is None else rec.info.get("kappa")})
     else:
         raise ValueError(stream)
+
+
+def _field(run, rng, east, north, amplitude=None):
+    """A smooth non-separable field; half of the time (when no amplitude is imposed) all values are multiplied by one of DATA_MAGNITUDES."""
+    if amplitude is not None:
+        return gen.smooth_field(rng, east, north, amplitude=amplitude)
+    factor = float(rng.choice(DATA_MAGNITUDES)) if rng.random() < 0.5 else 1.0
+    run.count("data_magnitude:%.0e" % factor)
+    return gen.smooth_field(rng, east, north) * factor
 
 
 def _exact_scalar(rng, verde, n, east, north):
